@@ -107,7 +107,11 @@ func init() {
 				if fn.Name() != "Commit" && fn.Name() != "Discard" {
 					continue
 				}
-				sites := callsTo(fn, muts)
+				effs := effSites(p, fn, muts, inlineDepth)
+				var sites []ssa.CallInstruction
+				for _, e := range effs {
+					sites = append(sites, e.site)
+				}
 				ifs := statusIfs(p, fn, status, 1)
 				blockers := map[ssa.Instruction]bool{}
 				for _, i := range ifs {
@@ -133,15 +137,34 @@ func init() {
 						}
 					}
 				}
-				for _, s := range sites {
+				for _, e := range effs {
+					s := e.site
 					what := "transaction mutation happens only after the transaction's status was tested"
-					key := callKey(fn, s)
+					key := effKey(fn, e)
+					// a helper that tests the status itself before its mutation
+					guardedInside := false
+					for lvl, h := range e.via {
+						hb := map[ssa.Instruction]bool{}
+						for _, i := range statusIfs(p, h, status, 1) {
+							hb[i] = true
+						}
+						if len(hb) == 0 {
+							continue
+						}
+						if _, reach := reachAfter(h, nil, e.chain[lvl+1], nil, hb); !reach {
+							guardedInside = true
+						}
+					}
+					if guardedInside {
+						r.okWhy(key, p.Rel(s.Pos()), what, "the helper tests Transaction.Status before its mutation"+viaText(e))
+						continue
+					}
 					if len(ifs) == 0 {
-						r.bad(key, p.Rel(s.Pos()), what, funcName(fn)+" never reads Transaction.Status")
+						r.bad(key, p.Rel(s.Pos()), what, funcName(fn)+" never reads Transaction.Status"+viaText(e))
 						continue
 					}
 					if path, reach := reachAfter(fn, nil, s, nil, blockers); reach {
-						r.bad(key, p.Rel(s.Pos()), what, fmtPath("mutation reachable before any test of Transaction.Status", path))
+						r.bad(key, p.Rel(s.Pos()), what, fmtPath("mutation reachable before any test of Transaction.Status"+viaText(e), path))
 						continue
 					}
 					if !realGuard {
@@ -209,18 +232,19 @@ func init() {
 				}
 			}
 			cut := mkCut(boolEdges(fn, forward(okVals, fwdOpts{noBinOp: true}), false))
-			for _, s := range callsTo(fn, sr) {
+			for _, e := range effSites(p, fn, sr, inlineDepth) {
+				s := e.site
 				what := "branch moved only if this transaction has not already moved it"
-				key := callKey(fn, s)
+				key := effKey(fn, e)
 				if len(logs) == 0 {
 					r.bad(key, p.Rel(s.Pos()), what, "transaction.Commit does not consult GetTransactionLogs: a re-run after a failure at the k-th branch stacks duplicate commits on the first k-1 branches")
 					continue
 				}
 				// the membership test must ask for the name the update will be logged under
 				keyAgrees := false
-				if args := s.Common().Args; len(args) >= 2 {
+				if args := e.inner.Common().Args; len(args) >= 2 {
 					for _, lkKey := range lookupKeys {
-						if sameElem(lkKey, args[1]) {
+						if sameElemSub(lkKey, args[1], e.sub) {
 							keyAgrees = true
 						}
 					}
